@@ -185,8 +185,10 @@ def run_unit(ctx, proofs_ok):
                     ctx.failure(SIG[sig], dict(m, code=c, what={12: "outside the environment's input format", 6: "quota / distinct items / range predicate false"}.get(c, "")), tag=sig)
         stats[label] = st
     ctx.units["graph"] = {"checks": stats, "python_s": round(t1 - t0, 1), "coq_s": round(time.time() - t1, 1), "mcp_generator_crashes": crashes,
-                          "proved": "MCP (floor+clamp, cut-off, remove_repeat never invents items, ids in 0..n_items, quota), FLP format",
+                          "proved": "MCP (floor+clamp, cut-off, remove_repeat never invents items, ids in 0..n_items, quota, membership width = max_size for every batch), FLP format",
                           "property_evaluated_only": "MCP: items of a set pairwise distinct and none lost (needs `perm` to be a sorting permutation); FLP distance matrix symmetric / zero diagonal"}
+    ctx.notes.append("graph: the former MCP crash (no set of the batch reaches max_size; fixed by repo commit 78ab0ce) is probed on every run by the small "
+                     "configurations of (a) and by the chosen-draw batches of (b) whose sizes all stay below max_size; it fires again under its old signature if it returns. ")
     ctx.notes.append("graph: MCP membership zeros are not necessarily trailing (remove_repeat leaves a zero where a repeated item stood); the environment treats 0 as "
                      "'no item' anywhere. FLP documents to_choose as [batch, 1]; the generator emits [batch].")
 
